@@ -120,6 +120,14 @@ impl EntropyNormalizer {
         let entropy = self.calculate_entropy(frequencies);
         let mut normalized = vec![0u32; frequencies.len()];
         let mut remaining = target_total;
+
+        // Every symbol that occurs must keep at least one slot, otherwise it cannot be
+        // encoded at all: while allocating, hold back one slot for each occurring symbol
+        // that has not been processed yet.
+        let mut unprocessed = frequencies.iter().filter(|&&f| f > 0).count() as u32;
+        if unprocessed > target_total {
+            return Err(ZiporaError::invalid_data("More symbols than table slots"));
+        }
         
         // First pass: allocate based on entropy contribution
         if self.adaptive_scaling && entropy > self.entropy_threshold {
@@ -133,7 +141,8 @@ impl EntropyNormalizer {
                         ((freq as f64 * target_total as f64) / total_freq).round() as u32
                     };
                     
-                    normalized[i] = allocation.max(1).min(remaining);
+                    unprocessed -= 1;
+                    normalized[i] = allocation.max(1).min(remaining - unprocessed);
                     remaining = remaining.saturating_sub(normalized[i]);
                 }
             }
@@ -142,7 +151,8 @@ impl EntropyNormalizer {
             for (i, &freq) in frequencies.iter().enumerate() {
                 if freq > 0 {
                     let allocation = ((freq as f64 * target_total as f64) / total_freq).round() as u32;
-                    normalized[i] = allocation.max(1).min(remaining);
+                    unprocessed -= 1;
+                    normalized[i] = allocation.max(1).min(remaining - unprocessed);
                     remaining = remaining.saturating_sub(normalized[i]);
                 }
             }
@@ -485,11 +495,22 @@ impl FseTable {
             
         let mut normalized_freqs = vec![0u32; max_symbol as usize + 1];
         let mut remaining = table_size as u32;
+
+        // Hold back one slot for each occurring symbol not processed yet, so that none
+        // of them ends up with frequency 0 (= not encodable)
+        let mut unprocessed = frequencies.iter()
+            .take(max_symbol as usize + 1)
+            .filter(|&&f| f > 0)
+            .count() as u32;
+        if unprocessed > remaining {
+            return Err(ZiporaError::invalid_data("More symbols than table slots"));
+        }
         
         for i in 0..=max_symbol as usize {
             if frequencies[i] > 0 {
                 let freq = ((frequencies[i] as u64 * table_size as u64) / total_freq) as u32;
-                normalized_freqs[i] = freq.max(1).min(remaining);
+                unprocessed -= 1;
+                normalized_freqs[i] = freq.max(1).min(remaining - unprocessed);
                 remaining = remaining.saturating_sub(normalized_freqs[i]);
             }
         }
@@ -919,11 +940,14 @@ impl FseEncoder {
                 }
                 current_state = new_state;
             } else {
-                println!("FSE encode[{}]: FALLBACK symbol={} ('{}'), state={}", 
-                    encode_count, symbol, symbol as char, current_state);
-                // Fallback: emit symbol directly with escape marker
-                output.push(0xFF); // Escape marker
-                output.push(symbol); // Literal symbol
+                // The symbol has no slot in the normalised table (absent from the
+                // statistics the table was built from, or rounded down to zero).
+                // The stream format has no escape mechanism the decoder understands,
+                // so report the failure instead of emitting undecodable bytes.
+                return Err(ZiporaError::invalid_data(format!(
+                    "FSE: symbol {} cannot be encoded with the current table (normalized frequency is 0)",
+                    symbol
+                )));
             }
             encode_count += 1;
         }
@@ -953,8 +977,12 @@ impl FseEncoder {
             if let Some((new_state, _bits_needed)) = table.encode_symbol_accelerated(symbol, current_state) {
                 current_state = new_state;
             } else {
-                // Fallback to literal encoding
-                output.push(symbol);
+                // No escape mechanism in the stream format: fail instead of
+                // emitting a literal the decoder cannot recognise
+                return Err(ZiporaError::invalid_data(format!(
+                    "FSE: symbol {} cannot be encoded with the current table (normalized frequency is 0)",
+                    symbol
+                )));
             }
         }
         
